@@ -95,6 +95,11 @@ func C20Payload(tape *simrt.Tape, tier string) ([]byte, string) {
 		p := bytes.Repeat([]byte(fmt.Sprintf("line %d of a repetitive text\n", seed%97)), 40+seed%80)
 		return p, fmt.Sprintf("repetitive text (%d bytes)", len(p))
 	default:
+		if seed%41 == 1 {
+			// a highly compressible message above 8 MiB (zero padding of the
+			// message-size suites): tiny compressed form, huge decoded form
+			return make([]byte, 9<<20), "9 MiB zeros"
+		}
 		if seed%3 == 0 {
 			// just above the sizes at which block-based codecs switch to several
 			// blocks / a larger window (zstd: 128 KiB blocks), like the ~200 KB
